@@ -53,8 +53,9 @@ const (
 
 // listItem represents an item in a list.
 type listItem struct {
-	Text  string
-	Level int
+	Text    string
+	Level   int
+	Ordered bool // kind of the list this item belongs to (nested lists may differ from the root)
 }
 
 // ParsedTable represents a table extracted from HTML.
